@@ -186,24 +186,31 @@ theorem region_roundtrip (r : TReg) (h : r.Inv) : regionLoad (regionSave r) = .o
 
 /-! ## Legacy layout -/
 
-/-- **The legacy reader as the code stands rejects every legacy file** (it passes the
-component count under the keyword `dim`, which `Field.__init__` no longer has).  This is the
-negation of the property's last sentence; see `legacy_read_doc` for the reader the property
-describes. -/
-theorem legacy_rejected (l : Legacy) : ∃ e, h5Load (.unversioned l) = .error e :=
-  legacyLoad_never_ok l
-
-/-- **The documented legacy reader** (component count passed as `nvdim`) reads every
-well-formed legacy file — corners in any order and of any dtype, any counts, any component
-count, real/complex/int data — to the documented field `legacyField l`. -/
-theorem legacy_read_doc (l : Legacy) (h0 : 0 < l.p1.length) (hl : l.p2.length = l.p1.length)
+/-- **Legacy files are still read.**  The reader reads every well-formed legacy file —
+corners `p1`, `p2` in any order and of any dtype, any counts, any component count,
+real/complex/int data — to the documented field `legacyField l` (see `legacy_field_items`). -/
+theorem legacy_read (l : Legacy) (h0 : 0 < l.p1.length) (hl : l.p2.length = l.p1.length)
     (hne : ∀ a, a < l.p1.length → l.p1.vals.getD a 0 ≠ l.p2.vals.getD a 0)
     (hn : l.n.length = l.p1.length) (hpos : ∀ k ∈ l.n, 0 < k) (hdim : 1 ≤ l.dim)
     (hs : l.array.shape = l.n.map Int.toNat ++ [l.dim.toNat])
     (hb : l.array.buf.length = natProd (l.n.map Int.toNat ++ [l.dim.toNat]))
     (hsc : l.sidecar = none) :
-    legacyLoadDoc l = .ok (legacyField l) :=
-  legacyLoadDoc_ok l h0 hl hne hn hpos hdim hs hb hsc
+    h5Load (.unversioned l) = .ok (legacyField l) :=
+  legacyLoad_ok l h0 hl hne hn hpos hdim hs hb hsc
+
+/-- … and with a `.subregions.json` side-car: whenever the side-car's subregions are accepted
+by the mesh (`sidecarLoad` succeeds with mesh `m'`), the file is read to the same field on
+that mesh; the side-car changes nothing but the subregions. -/
+theorem legacy_read_sidecar (l : Legacy) (m' : TMesh) (h0 : 0 < l.p1.length) (hl : l.p2.length = l.p1.length)
+    (hne : ∀ a, a < l.p1.length → l.p1.vals.getD a 0 ≠ l.p2.vals.getD a 0)
+    (hn : l.n.length = l.p1.length) (hpos : ∀ k ∈ l.n, 0 < k) (hdim : 1 ≤ l.dim)
+    (hs : l.array.shape = l.n.map Int.toNat ++ [l.dim.toNat])
+    (hb : l.array.buf.length = natProd (l.n.map Int.toNat ++ [l.dim.toNat]))
+    (hsc : sidecarLoad (legacyField l).mesh l.sidecar = .ok m') :
+    h5Load (.unversioned l) = .ok { legacyField l with mesh := m' } ∧
+      m'.region = (legacyField l).mesh.region ∧ m'.n = (legacyField l).mesh.n :=
+  ⟨legacyLoad_ok_gen l m' h0 hl hne hn hpos hdim hs hb hsc,
+   (sidecarLoad_keeps _ _ _ hsc).1, (sidecarLoad_keeps _ _ _ hsc).2.1⟩
 
 /-- what `legacyField` is, in numbers: the region spans the element-wise minimum and maximum
 of `p1`, `p2`; the values are the stored values; all cells valid; no unit -/
@@ -275,10 +282,9 @@ example : exFloat.data.buf.kind ≠ .int ∧ exFloat.vmap = defaultVmap exFloat.
   decide
 example : h5Load (h5Save exFloat) = .ok exFloat := by decide +kernel
 
-example : legacyLoadDoc exLegacy = .ok (legacyField exLegacy) := by decide +kernel
+example : h5Load (.unversioned exLegacy) = .ok (legacyField exLegacy) := by decide +kernel
 example : (legacyField exLegacy).mesh.region.pmin = .floats [0, 0] ∧ (legacyField exLegacy).data.buf = .floats [1, 2, 3, 4, 5, 6] := by
   decide +kernel
-example : h5Load (.unversioned exLegacy) = .error .type := by decide +kernel
 
 /-- unordered stored corners -/
 example : regionLoad { pmin := .floats [0, 1], pmax := .floats [1, 1], dims := ["x", "y"], units := ["m", "m"], ndim := 2,
